@@ -1,5 +1,5 @@
 """Solver-level checks.  Engine `seq` (sequential solver) and engine `par` (parallel solver, scheduler)."""
-import json, os
+import json, os, re
 from concurrent.futures import ThreadPoolExecutor
 from vlib import *
 
@@ -124,8 +124,32 @@ def simple_seq_check(pid, plan, rule_extra=""):
     return f
 
 
+MC_PAR_Q = ["MC_ParBnB_w2_t1_detTRUE.cfg", "MC_ParBnB_w3_t1_detTRUE.cfg", "MC_ParBnB_w2_t2_detFALSE.cfg", "MC_ParBnB_w2_t3_detFALSE.cfg"]
+MC_PAR_T = MC_PAR_Q + ["MC_ParBnB_w2_t1_detFALSE.cfg"]
+MC_SEQ = ["MC_SeqBnB_t1.cfg", "MC_SeqBnB_t2.cfg", "MC_SeqBnB_t3.cfg"]
+MC_FOR = {"C01": ("seq",), "C14": ("seq",), "C19": ("seq",), "C05": ("seq", "par"), "C02": ("seq", "par"), "C03": ("par",), "C04": ("par",)}
+
+
+def mc_parts(chk, tier):
+    """the specification alone: TLC explores the generative solver models (every contract-abiding compile outcome, every interleaving,
+    every cutoff point) and checks the property invariants / liveness there; a failure is a specification-level finding -> tool error"""
+    kinds = MC_FOR.get(chk.pid, ())
+    cfgs = []
+    if "seq" in kinds:
+        cfgs += [("MC_SeqBnB", c) for c in MC_SEQ]
+    if "par" in kinds:
+        cfgs += [("MC_ParBnB", c) for c in (MC_PAR_T if tier == "thorough" else MC_PAR_Q)]
+    def one(x):
+        mod, c = x
+        return x, mc(mod, c, workers=4, require_actions=("_t3" not in c), timeout=3600)
+    with ThreadPoolExecutor(max_workers=3) as ex:
+        for (mod, c), r in ex.map(one, cfgs):
+            chk.add_mc(c, r, constants=open(os.path.join(SPEC, c)).read().split("\n")[1])
+
+
 def extra_parts(chk, w, tier):
     """parts of a property decided by another engine"""
+    mc_parts(chk, tier)
     if chk.pid == "C10":
         import components
         components.c10_component(chk, w, tier)
@@ -142,6 +166,8 @@ def add_par_part(pid, modes):
         chk.cov["samples"].append({"parallel_run": [e for e in first[len(first) // 2] if e["ev"] in ("reset", "locked", "workload", "pop", "push", "wait", "cutoff_fires", "return")][:14]})
         chk.cov["rule"] += "; plus " + PAR_RULE
         chk.assumptions += PAR_ASSUME
+        if pid == "C05":
+            table_replay_part(chk, w, tier)
     PAR_PARTS[pid] = f
 
 
@@ -309,6 +335,8 @@ def par_check(pid, modes, seq_plan=None, rule_extra=""):
             chk.cov["samples"].append({"sequential_run": sample_run(firsts)})
         chk.cov["rule"] = PAR_RULE + ("; plus " + SEQ_RULE if seq_plan else "") + rule_extra
         chk.assumptions = PAR_ASSUME + (SEQ_ASSUME if seq_plan else [])
+        mc_parts(chk, tier)
+        table_replay_part(chk, w, tier)
         return chk.finish()
     return f
 
@@ -327,3 +355,61 @@ add_par_part("C05", [("cutsweep", "allimpacted", 6, 40, 120, 3, 3), ("cutsweep",
 add_par_part("C02", [("sched", "allimpacted", 6, 60, 200, 4, 3), ("cutsweep", "allimpacted", 6, 15, 50, 2, 3), ("free", "allimpacted", 6, 20, 80, 4, 8)])
 add_par_part("C09", [("sched", "allimpacted", 6, 80, 250, 4, 3) + tuple(FOCUS2), ("sched", "reconv", 8, 150, 400, 3, 3) + tuple(FOCUS), ("sched", "reconv", 8, 80, 250, 3, 3) + tuple(FOCUS2)])
 add_par_part("C14", [("primal", "allimpacted", 6, 60, 200, 4, 3)])
+
+
+# =============================================================================== table mode: TLC paths replayed as schedules
+GATE = re.compile(r'^(GW_Aborted|GW_Complete|GW_Wait|GW_Pop|Compile|Update|Enqueue|Abort|Finish)\((\d+)')
+
+
+def table_replay_part(chk, w, tier):
+    """spec -> impl for the parallel solver: outcome tables from the real compilers, every interleaving explored by TLC
+    (MC_ParBnBTable), an edge cover of each state graph replayed on the real ParallelSolver by the scheduler, the recorded runs
+    validated by TracePar.  A schedule that cannot be followed is a divergence (counted), never a verdict."""
+    thorough = tier == "thorough"
+    tabs = os.path.join(w, "tables.json")
+    run_bin("tab", ["--seed", SEED, "--count", 3 if not thorough else 10, "--min-cores", 4, "--max-cores", 7 if not thorough else 9, "--out", tabs])
+    tables = json.load(open(tabs))
+    jobs = []
+    stats = []
+    for ti, t in enumerate(tables):
+        tf = os.path.join(w, f"table_{ti}.json")
+        json.dump(t, open(tf, "w"))
+        for nw in ([2] if not thorough else [2, 3]):
+            dot, r = dump_graph("MC_ParBnBTable", f"MC_ParBnBTable_w{nw}.cfg", f"partab_{chk.pid}_{ti}_{nw}", env={"TABLE": tf}, timeout=1200)
+            edges, inits, _ = parse_dot(dot)
+            os.remove(dot)
+            chk.add_mc(f"MC_ParBnBTable_w{nw}.cfg[table {ti}: {t['dd']} width {t['width']} {len(t['cores'])} sub-problems x {len(t['lbs'])} incumbents]", r,
+                       constants=f"NSpawn = {nw} WithCutoff = TRUE; outcomes = real {t['dd']} compiler, width {t['width']}")
+            paths, st = edge_cover(edges, inits, max_len=120, max_paths=(250 if not thorough else 4000))
+            st.update({"table": ti, "workers": nw})
+            stats.append(st)
+            for p in paths:
+                policy, cut = [], None
+                for lab in p:
+                    if lab.startswith("CutoffFires"):
+                        cut = len(policy)
+                        continue
+                    m = GATE.match(lab)
+                    if not m:
+                        continue  # the stuttering step of the terminated system
+                    policy.append(int(m.group(2)) - 1)
+                cfg = {"dd": t["dd"], "cache": False, "dom": False, "fringe": "simple", "width": t["width"], "nconstr": nw, "nspawn": nw, "sched": "policy",
+                       "sseed": 1, "policy": policy, "cut_step": -1 if cut is None else cut, "cut_poll": 0, "cache_gates": False}
+                jobs.append({"inst": t["inst"], "cfg": cfg, "role": "cut" if cut is not None else "sched"})
+    chk.cov.setdefault("graph_cover", []).extend(stats)
+    jf = os.path.join(w, "table_jobs.json")
+    json.dump(jobs, open(jf, "w"))
+    tr = os.path.join(w, "par_table_replay.ndjson")
+    chk.cov["restarts_after_stuck_runs"] = chk.cov.get("restarts_after_stuck_runs", 0) + run_par(tr, ["--jobs", jf])
+    followed = 0
+    for _tr, evs, runs in validate_many(chk, [(tr, ["--jobs", jf])], "TracePar", "TracePar.cfg", par_dev(chk)):
+        par_stats(chk, runs)
+        for rr in runs:
+            ret = rr[-1]
+            if ret.get("sched", {}).get("diverged", 1) == 0:
+                followed += 1
+    chk.cov["tlc_paths_replayed"] = chk.cov.get("tlc_paths_replayed", 0) + len(jobs)
+    chk.cov["tlc_paths_followed_exactly"] = chk.cov.get("tlc_paths_followed_exactly", 0) + followed
+    chk.cov["samples"].append({"tlc_generated_schedule": jobs[len(jobs) // 2]["cfg"]})
+
+
